@@ -560,7 +560,10 @@ func c45ShortKeyMessage(rt *rapid.T, p *keyPool, data []byte, ps []refpgp.Packet
 	for i := 0; i < n; i++ {
 		rc := p.recipients()[rapid.IntRange(0, len(p.recipients())-1).Draw(rt, "krcpt")]
 		sub := rc.ent.Subkeys[0].PublicKey
-		blockLen := rapid.IntRange(0, 40).Draw(rt, "blocklen")
+		blockLen := rapid.SampledFrom([]int{0, 1, 2, 3, 4, 5, 19, 27, 35}).Draw(rt, "blocklen")
+		if rapid.Bool().Draw(rt, "anylen") {
+			blockLen = rapid.IntRange(0, 40).Draw(rt, "blocklenany")
+		}
 		block := rapid.SliceOfN(rapid.Byte(), blockLen, blockLen).Draw(rt, "block")
 		if blockLen >= 3 && rapid.Bool().Draw(rt, "fixsum") {
 			block[0] = rapid.SampledFrom([]byte{2, 3, 7, 8, 9, 0, 1}).Draw(rt, "kcipher")
